@@ -137,13 +137,18 @@ Section Rtf.
               else if (65 <=? c) && (c <=? 70) then Some (c - 55) else None
     end.
 
+  (* white space that int() strips: ASCII characters by C isspace (\x1c..\x1f are NOT stripped, unlike
+     str.strip), non-ASCII characters by Py_UNICODE_ISSPACE (they are first mapped to ' ') *)
+  Definition int_space (c : N) : bool :=
+    if c <? 127 then (N.eqb c 32 || ((9 <=? c) && (c <=? 13))) else isspace c.
+
   (* chr(int(<two characters>, 16)) or None where that raises ValueError (swallowed by the code) *)
   Definition hex2 (a b : N) : option N :=
     match hexval a, hexval b with
     | Some x, Some y => Some (16 * x + y)
-    | Some x, None => if isspace b then Some x else None
+    | Some x, None => if int_space b then Some x else None
     | None, Some y =>
-        if isspace a || N.eqb a 43 then Some y
+        if int_space a || N.eqb a 43 then Some y
         else if N.eqb a MINUS then (if N.eqb y 0 then Some 0 else None)
         else None
     | None, None => None
